@@ -448,6 +448,11 @@ func runJob(j *proto.Job) (res *proto.Result) {
 	case j.Scan:
 		runScan(j, res)
 		return res
+	case len(j.Probes) > 0:
+		for _, p := range j.Probes {
+			res.Probes = append(res.Probes, runProbe(p, j.ProbeOffset))
+		}
+		return res
 	case len(j.Seqs) > 0:
 		runSeqs(j, res)
 		return res
@@ -557,6 +562,41 @@ func runScan(j *proto.Job, res *proto.Result) {
 			return
 		}
 	}
+}
+
+func runProbe(content []byte, off int) (pr proto.ProbeResult) {
+	pr.ErrIndex = -1
+	defer func() {
+		if r := recover(); r != nil {
+			pr.Panic = trunc(fmt.Sprint(r), 200)
+		}
+	}()
+	f := fs.NewFile("probe.jst", content)
+	s := scanner.NewJApiScanner(f)
+	for n := 0; n < 4*len(content)+16; n++ {
+		lex, je := s.Next()
+		if je != nil {
+			pr.ErrIndex, pr.ErrMsg = int(je.Index), je.Msg
+			return pr
+		}
+		if lex == nil {
+			return pr
+		}
+		pr.Lexemes++
+		if pr.LexType == "" && int(lex.Begin()) >= off {
+			pr.LexType, pr.Begin, pr.End = lex.Type().String(), int(lex.Begin()), int(lex.End())
+			if lex.Type() == scanner.Keyword {
+				de, err := directive.NewDirectiveType(lex.Value().String())
+				if err != nil {
+					pr.KindErr = err.Error()
+				} else {
+					pr.Kind = de.String()
+				}
+			}
+		}
+	}
+	pr.Panic = "no progress"
+	return pr
 }
 
 var allOps = []string{"json", "jsonindent", "openapi", "openapiindent", "title"}
